@@ -12,7 +12,7 @@ EXPLANATION = (
     'caller-given). Summaries of the Statechart queries are computed, not assumed. Sinks are the state lists of every '
     'MicroStep built by the interpreter, the sequence in which stabilisation leaves are examined, the order of several '
     'transitions, the sequence over which invariants are evaluated; each must carry a declaration- and hash-independent '
-    'tag. Also: no id()/hash() value outside __hash__ definitions and dictionary keys. Decides that no declaration or '
+    'tag. Also: no id()/hash() value outside __hash__ definitions and dictionary keys; the evaluator context is a fresh dictionary, never the mapping passed by the caller. Decides that no declaration or '
     'hash order can reach an observable ordering; not the determinism of user code.')
 
 
@@ -145,9 +145,12 @@ def rules_taint(run):
     ei = run.fn('Interpreter.execute_once')
     E = ei.node
     inv = [c for (obj, kind, step, c) in q.contract_calls(run, E) if kind == 'invariants']
+    inv += [c for c in q.calls(E) if isinstance(c.func, ast.Attribute) and c.func.attr == 'evaluate_invariants']      # (evaluator asked directly)
     run.anchor(inv, r, 'state invariants evaluation in execute_once')
     for c in inv:
         lp = q.enclosing(c, ast.For)
+        while lp is not None and q.in_node(c, lp.iter):       # (a loop over the failing conditions is not the loop over the states)
+            lp = q.enclosing(lp, ast.For)
         run.anchor(lp is not None, r, 'loop around the invariants evaluation')
         env = o.flow(ei, E, upto=lp)
         t = o.tag(lp.iter, env, ei, E)
@@ -219,8 +222,44 @@ def rules_taint(run):
              'reverse document order), Statechart._transitions; harmless exactly when C07.1 holds')
 
 
+def rules_own_context(run):
+    """Same chart, same initial context, same events -> same run: the evaluator must not keep working in a mapping the caller (and the next
+    interpreter built from it) still holds."""
+    prog = run.prog
+    r = run.rule('C07.6', 'the context of PythonEvaluator is its own dictionary: every binding of _context is a fresh container (a display, dict(..), a copy), '
+                          'never a mapping received from the caller (a second run seeded with the same mapping would start from what the first one left)')
+    n = 0
+    fresh_calls = ('dict', 'copy.copy', 'copy.deepcopy', 'copy', 'deepcopy', 'collections.OrderedDict', 'OrderedDict')
+    for f in prog.functions():
+        if f.outer is not None or f.cls is None or not prog.is_subclass(f.cls.name, 'PythonEvaluator'):
+            continue
+        params = {a.arg for a in f.node.args.args + f.node.args.kwonlyargs} - {'self'}
+        for c, fld, kind, node in prog.direct_writes(f):
+            if fld != '_context' or kind != 'assign':
+                continue
+            n += 1
+            vals = [node.value] + q.local_origin(f.node, node.value)
+            def fresh(v):
+                v = strip_cast(v)
+                if isinstance(v, (ast.Dict, ast.DictComp)):
+                    return True
+                if isinstance(v, ast.Call) and (dotted(v.func) in fresh_calls or (isinstance(v.func, ast.Attribute) and v.func.attr == 'copy')):
+                    return True
+                if isinstance(v, ast.IfExp):
+                    return fresh(v.body) and fresh(v.orelse)
+                if isinstance(v, ast.BoolOp):
+                    return all(fresh(x) for x in v.values)
+                return False
+            okk = all(fresh(v) for v in vals if not isinstance(strip_cast(v), ast.Name)) and not any(
+                isinstance(strip_cast(v), ast.Name) and strip_cast(v).id in params for v in vals) and any(not isinstance(strip_cast(v), ast.Name) for v in vals)
+            run.check(okk, r, f.short, 'write:_context is a fresh dictionary', 'the context is (or may be) the very mapping passed by the caller: runs seeded with the same '
+                      'mapping are not independent', node)
+    run.floor(n, 1, r, 'bindings of PythonEvaluator._context')
+
+
 def check(run):
     run.guard(rules_taint, run)
+    run.guard(rules_own_context, run)
     run.guard(rules_order, run, 'C07', '.2')
     from .c16 import rules_caches
     run.guard(rules_caches, run, 'C07', '.4')
